@@ -222,7 +222,7 @@ fn real_vs_stub() -> Value {
         ],
         "simulated": ["timers and clock in the executor (discrete-event queue drained at schedule-defined points)"],
         "stub": [
-            "backend: the repository's own EmptyComposedBackendContext / EmptyBackendContext (no DOM)",
+            "backend: the repository's own EmptyComposedBackendContext / EmptyBackendContext (no DOM), and in half of the worlds the repository's in-memory test backend tests/base/composed_backend.ts (real child lists; its order is part of the compared tree)",
             "TypeScript compilation: replaced by the loader in /verif/node/hooks.mjs (trusted base; conformance-tested)",
         ],
     })
